@@ -125,6 +125,45 @@ def check(ctx):
                                   stmt='no unknown-item path')
     if n1 < 8:
         raise AnalysisError('C07.R1 examined only %d entry points' % n1)
+    # ... and on *every* path: once the lookup of the received item failed, nothing but "the type is not extensible" may lead to another outcome than
+    # the absent value (an earlier branch that returns the sentinel / raises for, say, OPTIONAL members pre-empts the projection)
+    nuni = 0
+    for codec in ('ber', 'per', 'oer', 'jer', 'xer'):
+        m = model.mod(RELS[codec])
+        for kind in ('Enumerated', 'Choice'):
+            c = m.classes[kind]
+            for name, f in [(n, f) for n, f in c.methods.items() if n in ENTRY]:
+                for g in class_helpers(c, f):
+                    ps = sem.paths(g)
+                    if ps is None:
+                        continue
+                    for p in ps:
+                        miss = [c_ for c_ in p.conds if (not c_[1]) and ' in self.' in c_[0] and ' not in ' not in c_[0]]
+                        if not miss or any(c_[1] and ' in self.' in c_[0] and ' not in ' not in c_[0] for c_ in p.conds):
+                            continue        # no failed lookup, or another map knew the item
+                        if all('root' in c_[0].split(' in self.')[-1] for c_ in miss):
+                            continue        # an index into the extension root that the root does not have is an error by X.691, never an addition
+                        nuni += 1
+                        ext_words = ('has_extension_marker', 'addition', 'extension')
+                        excluded = any(any(w in c_[0] for w in ext_words) and ((not c_[1] and ' is None' not in c_[0]) or (c_[1] and ' is None' in c_[0])) for c_ in p.conds)
+                        absent = False
+                        if p.outcome[0] == 'return' and len(p.outcome) > 3 and p.outcome[3] is not None:
+                            e = _first_flat(p.outcome[3])
+                            absent = isinstance(e, ast.Constant) and e.value is None
+                        elif p.outcome[0] == 'fall':
+                            absent = True
+                        continues = p.outcome[0] == 'return' and not absent and len(p.outcome) > 3 and 'TAG_MISMATCH' not in ast.unparse(p.outcome[3]) if p.outcome[0] == 'return' else False
+                        if excluded or absent or continues:
+                            continue
+                        ctx.instance('C07.R1', '%s.%s.%s: lookup failed, extensibility not excluded -> %s' % (codec, kind, g.name, p.outcome[1] if len(p.outcome) > 1 else p.outcome[0]), 'VIOLATION', node=g, file=m.rel)
+                        ctx.violation('C07.R1', m.rel, g, '%s::%s.%s' % (m.rel, kind, g.name),
+                                      'a path on which the received item is unknown (%s) ends in `%s` although nothing on it says the type is not extensible (conditions: %s): an '
+                                      'alternative / item added by a newer version is not reported as absent there' %
+                                      (miss[0][0], (p.outcome[2] if p.outcome[0] == 'raise' else p.outcome[1])[:80], '; '.join(('' if c_[1] else 'not ') + c_[0] for c_ in p.conds)[:300]),
+                                      stmt='unknown item: %s' % (p.outcome[1] if len(p.outcome) > 1 else p.outcome[0]))
+    ctx.instance('C07.R1', '%d paths with a failed lookup examined for their outcome' % nuni, 'ok', nontrivial=False)
+    if nuni < 4:
+        raise AnalysisError('C07.R1: only %d paths with a failed lookup found' % nuni)
     # CHOICE: the unknown alternative is consumed by its length
     ber = model.mod(RELS['ber'])
     f = ber.classes['Choice'].methods['decode']
@@ -416,3 +455,10 @@ class Sequence(MembersType):""", expect='C07.R1'),
             return (None, None), offset""", expect='C07.R1'),
 ]
 REFACTORS = []
+
+MUTANTS.append(dict(name='BER CHOICE: an OPTIONAL member with an unknown tag reports a tag mismatch before the extensibility test', file='asn1tools/codecs/ber.py',
+                    old="""            member = self.tag_to_member[tag]
+        elif self.has_extension_marker:""", new="""            member = self.tag_to_member[tag]
+        elif self.optional or self.has_default():
+            return TAG_MISMATCH, offset
+        elif self.has_extension_marker:""", expect='C07.R1'))
